@@ -537,4 +537,6 @@ def run(ctx):
     from sa.rules import C09, C08paging
     C09.tstates_rule(ctx, repo, repo.mod('snapshot'))
     C08paging.python_sites(ctx, repo, rule='C10.5-latch', floor=8)
+    from sa.rules import hwstate
+    hwstate.run(ctx, repo, 'C10.6-hwstate')
     return report.finish(ctx, EXPLANATION)
